@@ -85,6 +85,25 @@ def run_check(run, prop):
         for b in snap.get("backends", {}).values():
             ps = max(u["pool_size"] if isinstance(u, dict) and "pool_size" in u else 0 for u in [{}])
     run.cov["soak"] = {"runs": nsoak, "backend_messages_observed": soak_msgs}
+    # environment faults the op model has no op for (late health check reply, server-side reset of idle connections):
+    # monitors only - no reply of another request, no foreign statement inside a transaction, clean hand-off
+    envs = S.env_scenarios(run.rng, 12 if quick else 150)
+    eres = W.run_scenarios(wire, envs, timeout=240)
+    env_kinds = {}
+    for scn, res in zip(envs, eres):
+        run.cov["evaluations"] += 1
+        if "harness_error" in res or "start_error" in res:
+            run.broken.append("environment-fault scenario failed to run: %s" % (res.get("harness_error") or res.get("start_error")))
+            continue
+        env_kinds[scn["_kind"]] = env_kinds.get(scn["_kind"], 0) + 1
+        run.cov["traces_validated_against_impl"] += 1
+        v01, v02 = S.monitors(res, False)
+        own = S.own_reply_problems(res)
+        probs = (v02 if prop == "C02" else v01) + own
+        for v in probs[:1]:
+            run.violation("counterexample", "%s monitor on an environment-fault scenario (%s): %s" % (prop, scn["_kind"], json.dumps(v)),
+                          {"input": {"environment_fault": scn["_kind"]}, "monitor": v, "scenario": {k: w for k, w in scn.items() if k != "_kind"}})
+    run.cov["environment_fault_scenarios"] = env_kinds
     run.cov["distinct_nontrivial"] = len(distinct)
     run.cov["rule"] = ("24 directed op sequences (regressions of repaired defects) + seeded random sequences of 5-14 ops over 2-3 clients + a canary, pool sizes 1-2, "
                        "transaction/session mode, caching on/off; ops: Connect, Query(1-3 statements of Begin/Commit/Rollback/Select/Set/Prepare/Fail/CopyIn), Batch(named?), CopyDone/Fail, "
